@@ -293,7 +293,9 @@ func (c *Chain) Fund(ctx sdk.Context, addr sdk.AccAddress, coins sdk.Coins) {
 		return
 	}
 	must(c.BK.MintCoins(ctx, minttypes.ModuleName, coins))
-	must(c.BK.SendCoinsFromModuleToAccount(ctx, minttypes.ModuleName, addr, coins))
+	// plain SendCoins: genesis-style funding must also reach module accounts
+	// (fee pool), which SendCoinsFromModuleToAccount refuses as blocked
+	must(c.BK.SendCoins(ctx, authtypes.NewModuleAddress(minttypes.ModuleName), addr, coins))
 }
 
 // Result of delivering one event.
